@@ -38,7 +38,12 @@ class FakeViolation(object):
         return self.iLine
 
 
-def one_scenario(seed):
+def one_scenario_fix_only(seed):
+    """the same with a --fix_only dictionary: which rules are visited (analysed) does not depend on it"""
+    return one_scenario(seed, True)
+
+
+def one_scenario(seed, with_fix_only=False):
     """returns (ok, detail) for rule_list.fix and rule_list.check_rules on one seeded configuration"""
     import importlib.util
     import os
@@ -94,6 +99,22 @@ def one_scenario(seed):
         if r.random() < 0.2:
             d["subphase"] = r.randint(0, 5)
         cfg["rule"][rid] = d
+    # directed: the rules that name prerequisites keep their place (behind every rule without prerequisites) whatever happens
+    # to the prerequisites themselves: disabled, moved to another phase or sub-phase
+    if seed % 3 == 0:
+        for o in oRules.rules:
+            if o.prerequisites and not o.deprecated:
+                cfg["rule"].setdefault(o.unique_id, {})["disable"] = False
+                pre = [p.unique_id for p in o.prerequisites]
+                for pid in r.sample(pre, r.randint(1, len(pre))):
+                    d = cfg["rule"].setdefault(pid, {})
+                    what = r.choice(["disable", "disable", "phase", "subphase"])
+                    if what == "disable":
+                        d["disable"] = True
+                    elif what == "phase":
+                        d["phase"] = r.randint(1, 7)
+                    else:
+                        d["subphase"] = r.randint(0, 5)
     oConfig = config.config()
     oConfig.dConfig = cfg
     oConfig.severity_list = oSev
@@ -143,11 +164,16 @@ def one_scenario(seed):
         n = r.randint(1, 7)
         ct = cm.CONTRACTS["vsg.rule_list.rule_list.fix"]
         before = list(g["oplog"])
-        oRules.fix(n, copy.copy(skip), None)
+        dfo = None
+        if with_fix_only or seed % 5 == 2:
+            # a selection file: some rules with 'all' or line lists, or a dictionary that lacks the keys
+            sel = {rid: r.choice([["all"], [1, 2], []]) for rid in r.sample(ids, r.randint(0, 6))}
+            dfo = r.choice([{"fix": {"rule": sel}}, {"fix": {"rule": sel}}, {"fix": {}}, {}])
+        oRules.fix(n, copy.copy(skip), dfo)
         sk = skip if skip is not None else []
         exp = before + vocab["fix_phases"](list(range(1, n + 1)), oRules.rules, sk)
         if g["oplog"] != exp:
-            out.append(("fix", "fix_phase=%d skip=%r: operations %s, contract says %s" % (n, skip, _diff(g["oplog"][len(before) :], exp[len(before) :]), "fix_phases(irange(1,%d+1), rules, skip)" % n)))
+            out.append(("fix", "fix_phase=%d skip=%r%s: operations %s, contract says %s" % (n, skip, "" if dfo is None else " fix_only=%r" % (dfo,), _diff(g["oplog"][len(before) :], exp[len(before) :]), "fix_phases(irange(1,%d+1), rules, skip)" % n)))
         # ---- rule_list.check_rules
         for o in oRules.rules:
             o.violations = []
